@@ -437,7 +437,7 @@ int main(int argc, char **argv)
 {
     int i, sc = 0, thorough = 0; const char *replay = NULL, *prop = NULL; double t0 = now();
     unsigned long runs = 0, runs_faulted = 0, n0, a, b, c; unsigned long singles = 0, suffixes = 0, pairs = 0, triples = 0, quads = 0, aborted_runs = 0, d;
-    char viol[8][900]; char violrp[8][64]; int nviol = 0; char samples[4][700]; int nsamples = 0; unsigned long o[4];
+    char viol[8][900]; char violrp[8][128]; int nviol = 0; char samples[4][700]; int nsamples = 0; unsigned long o[32], subsets = 0;
     setvbuf(stdout, NULL, _IOFBF, 1 << 16);
     shim_watchdog_start();
     for (i = 1; i < argc; i++) {
@@ -455,15 +455,15 @@ int main(int argc, char **argv)
         int n = 0; unsigned long from = 0; const char *p = strchr(replay, ':');
         sc = atoi(replay);
         if (p && p[1] == 's') from = strtoul(p + 2, NULL, 10);
-        else if (p) for (p++; *p && *p != '-'; ) { char *e; o[n++] = strtoul(p, &e, 10); if (e == p || n >= 4) break; p = *e == ',' ? e + 1 : e; }
+        else if (p) for (p++; *p && *p != '-'; ) { char *e; o[n++] = strtoul(p, &e, 10); if (e == p || n >= 30) break; p = *e == ',' ? e + 1 : e; }
         run_plan(sc, o, n, from);
         printf("script %s, failing allocation calls: %s\n  faults injected: %lu of %lu allocation calls; trace: %s\n", scripts[sc].name, replay, shim_faults_hit, total_calls, trace);
         if (failed) { printf("VIOLATED: %s\n", fail_msg); return 1; }
         printf("no violation\n"); return 0;
     }
-#define RUN(N, FROM, COUNTER) do { unsigned long hit_; if (prog_buf) { prog_buf[0] = 'R'; prog_buf[1] = ' '; plan_str(prog_buf + 2, 100, sc, o, N, FROM); strcat(prog_buf, "\n"); } hit_ = run_plan(sc, o, N, FROM); runs++; if (hit_) { runs_faulted++; COUNTER++; if (aborted_run) aborted_runs++; } \
-        if (nsamples < 4 && hit_ && (runs % 7) == 3) { char ps_[64]; plan_str(ps_, sizeof ps_, sc, o, N, FROM); snprintf(samples[nsamples++], 700, "script %s, failing allocation calls %s: %s", scripts[sc].name, ps_ + 2, trace[0] ? trace : "(every step completed normally or failed the documented way)"); } \
-        if (failed && nviol < 8) { plan_str(violrp[nviol], 64, sc, o, N, FROM); snprintf(viol[nviol], 900, "%s", fail_msg); nviol++; } } while (0)
+#define RUN(N, FROM, COUNTER) do { unsigned long hit_; if (prog_buf) { prog_buf[0] = 'R'; prog_buf[1] = ' '; plan_str(prog_buf + 2, 120, sc, o, N, FROM); strcat(prog_buf, "\n"); } hit_ = run_plan(sc, o, N, FROM); runs++; if (hit_) { runs_faulted++; COUNTER++; if (aborted_run) aborted_runs++; } \
+        if (nsamples < 4 && hit_ && (runs % 7) == 3) { char ps_[128]; plan_str(ps_, sizeof ps_, sc, o, N, FROM); snprintf(samples[nsamples++], 700, "script %s, failing allocation calls %s: %s", scripts[sc].name, ps_ + 2, trace[0] ? trace : "(every step completed normally or failed the documented way)"); } \
+        if (failed && nviol < 8) { plan_str(violrp[nviol], 128, sc, o, N, FROM); snprintf(viol[nviol], 900, "%s", fail_msg); nviol++; } } while (0)
     o[0] = o[1] = o[2] = o[3] = 0;
     RUN(0, 0, singles); singles = 0; runs_faulted = 0;
     if (failed) goto report;
@@ -479,11 +479,20 @@ int main(int argc, char **argv)
     /* thorough: every set of four failing calls as well */
     if (thorough)
         for (a = 1; a <= n0 + 1 && nviol < 8; a++) for (b = a + 1; b <= n0 + 2 && nviol < 8; b++) for (c = b + 1; c <= n0 + 3 && nviol < 8; c++) for (d = c + 1; d <= n0 + 4 && nviol < 8; d++) { o[0] = a; o[1] = b; o[2] = c; o[3] = d; RUN(4, 0, quads); }
+    /* EVERY subset of failing calls among the first n0+3 ordinals, when that is at most 2^15 (thorough 2^20) runs: "whatever subset of the library's allocations fails" */
+    if (n0 + 3 <= (thorough ? 20u : 15u)) {
+        unsigned long mask, M = n0 + 3, k; int cnt;
+        for (mask = 1; mask < (1ul << M) && nviol < 8; mask++) {
+            for (cnt = 0, k = 0; k < M; k++) if (mask & (1ul << k)) o[cnt++] = k + 1;
+            if (cnt <= 2) continue;                      /* singles and pairs are done above */
+            RUN(cnt, 0, subsets);
+        }
+    }
 report:
     printf("{\"world\":\"faultx\",\"config\":%d,\"config_desc\":\"script %s: %lu allocation calls when nothing fails\",\"property\":\"C16\",\"thorough\":%d,"
            "\"evaluations\":%lu,\"nontrivial_states\":%lu,\"exhaustive\":%s,\"closure\":%s,\"wall_s\":%.3f,"
-           "\"counters\":{\"runs_with_single_fault\":%lu,\"runs_with_failing_suffix\":%lu,\"runs_with_two_faults\":%lu,\"runs_with_three_faults\":%lu,\"runs_with_four_faults\":%lu,\"runs_ending_in_documented_abort\":%lu},\"samples\":[",
-           sc, scripts[sc].name, n0, thorough, runs, runs_faulted, nviol ? "false" : "true", nviol ? "false" : "true", now() - t0, singles, suffixes, pairs, triples, quads, aborted_runs);
+           "\"counters\":{\"runs_with_single_fault\":%lu,\"runs_with_failing_suffix\":%lu,\"runs_with_two_faults\":%lu,\"runs_with_three_faults\":%lu,\"runs_with_four_faults\":%lu,\"runs_over_all_subsets_of_three_or_more\":%lu,\"runs_ending_in_documented_abort\":%lu},\"samples\":[",
+           sc, scripts[sc].name, n0, thorough, runs, runs_faulted, nviol ? "false" : "true", nviol ? "false" : "true", now() - t0, singles, suffixes, pairs, triples, quads, subsets, aborted_runs);
     for (i = 0; i < nsamples; i++) { const char *s; if (i) printf(","); putchar('"'); for (s = samples[i]; *s; s++) { if (*s == '"' || *s == '\\') putchar('\\'); if ((unsigned char)*s >= 0x20) putchar(*s); } putchar('"'); }
     printf("],\"violations\":[");
     for (i = 0; i < nviol; i++) { const char *s; printf("%s{\"replay\":\"%s\",\"ops\":\"script %s with failing allocation calls %s\",\"message\":\"", i ? "," : "", violrp[i], scripts[sc].name, violrp[i] + 2); for (s = viol[i]; *s; s++) { if (*s == '"' || *s == '\\') putchar('\\'); if ((unsigned char)*s >= 0x20) putchar(*s); } printf("\"}"); }
